@@ -73,3 +73,54 @@ pub assume_specification<U: PartialEq, T: PartialEq> [ <(U, T) as core::cmp::Par
 // Option::replace (core): stores the new value, returns what was there
 pub assume_specification<T> [ Option::<T>::replace ] (o: &mut Option<T>, v: T) -> (r: Option<T>)
     ensures r == *old(o), *final(o) == Some(v);
+
+// ---- order independence of the wire arm (the part of C11's "any permutation of the same banks succeeds or fails alike" that
+// this arm is responsible for).  The state the arm works on, as plain values: what each slot holds and which wires were seen.
+pub struct WireState { pub slots: Seq<Option<Seq<f64>>>, pub seen: Seq<bool> }
+pub open spec fn slots_view(s: Seq<Option<Vec<f64>>>) -> Seq<Option<Seq<f64>>> {
+    Seq::new(s.len(), |i: int| match s[i] { Some(v) => Some(v@), None => None })
+}
+// one decoded wire bank applied to a state: None = the event is rejected
+pub open spec fn apply_wire(run: u32, name: Adc32BankName, p: AdcV3Packet, st: WireState) -> Option<WireState> {
+    match wire_outcome(run, name, p, st.seen) {
+        WireOutcome::Ignored => Some(st),
+        WireOutcome::Rejected(_) => None,
+        WireOutcome::Stored { wire, delay, baseline, gain } => {
+            let cal = calibrated(p.waveform@, delay, baseline, gain);
+            Some(WireState { slots: if cal.len() == 0 { st.slots } else { st.slots.update(wire, Some(cal)) }, seen: st.seen.update(wire, true) })
+        },
+    }
+}
+pub open spec fn wf_state(st: WireState) -> bool { st.slots.len() == 256 && st.seen.len() == 256 }
+// Two banks in either order: both orders reject, or both give the same state.  (Before /repo commit fac8979 this was false: the
+// duplicate rule looked at the slot, and a copy that stores nothing left no trace.)
+pub proof fn lemma_wire_banks_commute(run: u32, n1: Adc32BankName, p1: AdcV3Packet, n2: Adc32BankName, p2: AdcV3Packet, st: WireState)
+    requires
+        wf_state(st),
+        // the wire a bank goes to is a valid index (proved for the real TpcWirePosition::try_new in unit wiremap: C08.wire_index_lt_256)
+        wire_outcome(run, n1, p1, st.seen) matches WireOutcome::Stored { wire, .. } ==> 0 <= wire < 256,
+        wire_outcome(run, n2, p2, st.seen) matches WireOutcome::Stored { wire, .. } ==> 0 <= wire < 256,
+    ensures ({
+        let ab = match apply_wire(run, n1, p1, st) { Some(s1) => apply_wire(run, n2, p2, s1), None => None };
+        let ba = match apply_wire(run, n2, p2, st) { Some(s2) => apply_wire(run, n1, p1, s2), None => None };
+        (ab is None <==> ba is None) && (ab matches Some(x) ==> ba matches Some(y) && x.slots =~= y.slots && x.seen =~= y.seen)
+    })
+{
+    // the wire a bank goes to, the calibration values and every rejection except "duplicate" do not depend on the state
+    let o1 = wire_outcome(run, n1, p1, st.seen);
+    let o2 = wire_outcome(run, n2, p2, st.seen);
+    match (o1, o2) {
+        (WireOutcome::Stored { wire: w1, .. }, WireOutcome::Stored { wire: w2, .. }) => {
+            let s1 = apply_wire(run, n1, p1, st)->Some_0;
+            let s2 = apply_wire(run, n2, p2, st)->Some_0;
+            if w1 == w2 {
+                assert(s1.seen[w2]);
+                assert(s2.seen[w1]);
+            } else {
+                assert(s1.seen[w2] == st.seen[w2]);
+                assert(s2.seen[w1] == st.seen[w1]);
+            }
+        },
+        _ => {},
+    }
+}
